@@ -163,6 +163,11 @@ func (h *handler) OnExit(s *stcp.Session) {
 	if r := h.find(s); r != nil {
 		r.onExit.Add(1)
 	}
+	if h.w.slowExit {
+		// a callback that takes a moment (user code may): whatever else ends the session meanwhile finds the exit in
+		// progress.  This only perturbs the schedule; nothing is concluded from the duration.
+		time.Sleep(300 * time.Microsecond)
+	}
 }
 
 // connMgr is the stcp.IConnMgr given to the server: the real SessionMgr behind a wrapper that puts the fault
@@ -171,8 +176,8 @@ type connMgr struct {
 	w *world
 }
 
-func (c *connMgr) ConnCount() int32             { return c.w.mgr.ConnCount() }
-func (c *connMgr) SetLogger(l *ulog.Logger)     { c.w.mgr.SetLogger(l) }
+func (c *connMgr) ConnCount() int32         { return c.w.mgr.ConnCount() }
+func (c *connMgr) SetLogger(l *ulog.Logger) { c.w.mgr.SetLogger(l) }
 func (c *connMgr) Do(conn net.Conn) {
 	w := c.w
 	w.mu.Lock()
@@ -196,10 +201,10 @@ func (c *connMgr) Do(conn net.Conn) {
 var errDiverged = errors.New("the label addresses a connection that is not a session in this run")
 
 type world struct {
-	mgr  *stcp.SessionMgr
-	h    *handler
-	mu   sync.Mutex
-	sess []*realSess
+	mgr    *stcp.SessionMgr
+	h      *handler
+	mu     sync.Mutex
+	sess   []*realSess
 	byName map[string]*realSess
 	byAddr map[string]*realSess
 
@@ -218,6 +223,7 @@ type world struct {
 
 	sendAmp  int  // concurrent-large-sends: every payload byte is handed to Session.Send sendAmp times
 	closeErr bool // every connection's Close reports an error after closing
+	slowExit bool // the exit callback takes 300 us
 }
 
 // watchdog measures how late a 2 ms tick can be in this process while a scenario runs: the scheduling latency the
